@@ -73,8 +73,18 @@ TRead ==
         ELSE /\ Slot(E) = SlotAt(f.m, f.tag)
              /\ IF Valid(f.m, f.tag) THEN ReadCache(E.th) ELSE UNCHANGED vars
 
+\* (a Foreign file that was not read did not exist when this run looked, whatever an earlier
+\*  behaviour of the log -- possibly a run in parallel -- wrote: forget it)
 TCompile ==
-  /\ Is("Compile") /\ Compile(E.th)
+  /\ Is("Compile") /\ Busy(E.th)
+  /\ IF Top(E.th).m \in Foreign /\ Top(E.th).pc = "pathed"
+     THEN LET f == Top(E.th) IN
+          /\ IF f.tag = PlainTag
+             THEN plain' = [plain EXCEPT ![f.m] = Empty] /\ UNCHANGED marked
+             ELSE marked' = [marked EXCEPT ![f.m][f.tag] = Empty] /\ UNCHANGED plain
+          /\ th' = SetTop(E.th, [f EXCEPT !.pc = "compiled", !.got = [sv |-> src[f.m], body |-> Want(f.conf)]])
+          /\ UNCHANGED <<src, phase, runs, hook, cfs, started, executed>>
+     ELSE Compile(E.th)
   /\ TopAfter(E.th).m = E.m /\ TopAfter(E.th).got = Slot(E)
 
 TWrite ==
